@@ -123,6 +123,9 @@ UNITS = [
 _c08 = _load('C08')
 UNITS += [dict(u, name='dispatch', defines=list(u.get('defines', [])) + ['FRAMING_CLAUSES'], enforce=['l2cap_input', 'error_response5_', 'error_response4_'],
                replay=dict(src='replay/c08_replay.cpp')) for u in _c08.UNITS if u['name'] == 'mtu']
+# Read By Type: collect_attributes, all_attributes and the handler (contracts stated in C02.py)
+_c02 = _load('C02')
+UNITS += [dict(u) for u in _c02.UNITS]
 _c11 = _load('C11')
 UNITS += [dict(u) for u in _c11.UNITS if u['name'] == 'confirmation']
 META = dict(
@@ -137,9 +140,9 @@ META = dict(
                 "handle 0 or unknown -> invalid handle; exactly one access to the attribute the handle designates with offset / data taken from the "
                 "PDU and with this connection's CCCD store and security attributes; no response for Write Command, Error Response, confirmation.",
     assumptions=["known finding F-C01 (witness class excluded): unsupported commands and client-sent notifications get an Error Response",
-                 "the remaining handlers - Find Information, Find By Type Value, Read By Type, Read By Group Type, Prepare Write, Execute Write - enter "
+                 "Read By Type (handle_read_by_type_request, all_attributes, collect_attributes, check_size_and_handle_range) is under contract too (units of C02.py; the handler for MTU <= 48 / 12 attributes and MTU <= 300 / 4 attributes in the quick tier). The remaining handlers - Find Information, Find By Type Value, Read By Group Type, Prepare Write, Execute Write - enter "
                  "l2cap_input by the framing contract only (response opcode or Error Response, length not increased); their bodies iterate the "
-                 "attribute table through template functors and are NOT under contract: memory safety and framing of those six handlers are not decided",
+                 "attribute table through template functors and are NOT under contract: memory safety and framing of those five handlers are not decided",
                  "abstract attribute table: index_by_handle returns an index below number_of_attributes or invalid_attribute_index (C04); "
                  "attribute_at(i).access is any function satisfying the ACCESS contract (writes at most buffer_size bytes of a read buffer, never "
                  "grows buffer_size) - proved for the value, CCCD and declaration access functions in C06 / C09, assumed for service, include and "
